@@ -8,25 +8,50 @@ From Helm Require Import Common.Assoc Common.Strs Text.Split Text.KindSort Text.
 Import ListNotations.
 Local Open Scope string_scope.
 
-(* observed generic manifest: Name, Content, Head.Kind as Helm parsed it *)
-Definition gobs := (string * string * string)%type.
+(* Observed document texts are given as positions in the head table (which lists every
+   distinct document once): the same bytes are not printed several times per case. *)
+(* observed generic manifest: Name, Content (position), Head.Kind as Helm parsed it *)
+Definition gobs := (string * nat * string)%type.
+
+Record ohook := mkOHook {
+  oh_name : string; oh_kind : string; oh_path : string; oh_doc : nat;
+  oh_events : list string; oh_weight : Z; oh_delete : list string; oh_outlog : list string
+}.
 
 Inductive sort_obs :=
 | OSortErr
-| OSortOk (hooks : list hook) (generic : list gobs).
+| OSortOk (hooks : list ohook) (generic : list gobs).
 
 Inductive render_obs :=
 | ORenderErr
-| ORenderOk (hooks : list hook) (manifest : string).
+(* Release.Manifest is, byte for byte (checked by the harness before it uses this form),
+   the concatenation of "---\n# Source: <path>\n<document>\n" over these (path, document) pieces *)
+| ORenderOk (hooks : list ohook) (pieces : list (string * nat))
+(* otherwise the text itself *)
+| ORenderRaw (hooks : list ohook) (manifest : string).
+
+(* A file's text is given as pieces: literal text and references to documents of the head
+   table; the harness checks that the concatenation is the file, byte for byte. *)
+Inductive piece := PS (s : string) | PD (i : nat).
+
+Fixpoint build_text (docs : list string) (ps : list piece) : string :=
+  match ps with
+  | [] => EmptyString
+  | PS s :: t => s ++ build_text docs t
+  | PD i :: t => match nth_error docs i with Some d => d | None => EmptyString end ++ build_text docs t
+  end.
+
+Definition build_files (heads : list (string * option head)) (fs : list (string * list piece)) : list (string * string) :=
+  map (fun f => (fst f, build_text (map fst heads) (snd f))) fs.
 
 Inductive case :=
 (* releaseutil.SplitManifests: input, documents in manifest-N order *)
 | CSplit (input : string) (obs : list string)
 (* releaseutil.SortManifests: uninstall order?, files, head table (document -> what the
    YAML library returned; None = parse error), observation *)
-| CSort (uninstall : bool) (files : list (string * string)) (heads : list (string * option head)) (obs : sort_obs)
+| CSort (uninstall : bool) (pfiles : list (string * list piece)) (heads : list (string * option head)) (obs : sort_obs)
 (* action.Install dry run: rendered files (path -> text), head table, Release.Hooks + Release.Manifest *)
-| CRender (files : list (string * string)) (heads : list (string * option head)) (obs : render_obs)
+| CRender (pfiles : list (string * list piece)) (heads : list (string * option head)) (obs : render_obs)
 (* kube.Client.Create: Kind of every resource in list order, observed fn start/end events
    in the order they happened, which creates failed *)
 | CBarrier (kinds : list string) (failing : list nat) (evs : list event) (reported_failures : nat).
@@ -41,30 +66,66 @@ Definition list_eqb {A} (f : A -> A -> bool) := fix go (a b : list A) : bool :=
   | _, _ => false
   end.
 
-Definition hook_eqb (a b : hook) : bool :=
-  String.eqb (hk_name a) (hk_name b) && String.eqb (hk_kind a) (hk_kind b) &&
-  String.eqb (hk_path a) (hk_path b) && String.eqb (hk_manifest a) (hk_manifest b) &&
-  list_eqb String.eqb (hk_events a) (hk_events b) && Z.eqb (hk_weight a) (hk_weight b) &&
-  list_eqb String.eqb (hk_delete a) (hk_delete b) && list_eqb String.eqb (hk_outlog a) (hk_outlog b).
+Section Docs.
+  Variable docs : list string.          (* map fst heads *)
+  Definition doc_is (i : nat) (c : string) : bool :=
+    match nth_error docs i with Some d => String.eqb d c | None => false end.
 
-Definition gobs_of (m : manifest) : gobs := (m_name m, m_content m, h_kind (m_head m)).
-Definition gobs_eqb (a b : gobs) : bool :=
-  match a, b with (n1, c1, k1), (n2, c2, k2) => String.eqb n1 n2 && String.eqb c1 c2 && String.eqb k1 k2 end.
+  Definition hook_eqb (a : hook) (b : ohook) : bool :=
+    String.eqb (hk_name a) (oh_name b) && String.eqb (hk_kind a) (oh_kind b) &&
+    String.eqb (hk_path a) (oh_path b) && doc_is (oh_doc b) (hk_manifest a) &&
+    list_eqb String.eqb (hk_events a) (oh_events b) && Z.eqb (hk_weight a) (oh_weight b) &&
+    list_eqb String.eqb (hk_delete a) (oh_delete b) && list_eqb String.eqb (hk_outlog a) (oh_outlog b).
+
+  Definition gobs_eqb (m : manifest) (b : gobs) : bool :=
+    match b with (n2, i2, k2) => String.eqb (m_name m) n2 && doc_is i2 (m_content m) && String.eqb (h_kind (m_head m)) k2 end.
+
+  (* the text the pieces stand for *)
+  Fixpoint pieces_text (ps : list (string * nat)) : option string :=
+    match ps with
+    | [] => Some EmptyString
+    | (p, i) :: t =>
+        match nth_error docs i, pieces_text t with
+        | Some d, Some rest =>
+            Some ("---" ++ String (byte 10) "# Source: " ++ p ++ String (byte 10) d ++ String (byte 10) rest)
+        | _, _ => None
+        end
+    end.
+End Docs.
+
+Definition list_eqb2 {A B} (f : A -> B -> bool) := fix go (a : list A) (b : list B) : bool :=
+  match a, b with
+  | [], [] => true
+  | x :: a', y :: b' => f x y && go a' b'
+  | _, _ => false
+  end.
 
 Definition case_ok (c : case) : bool :=
   match c with
   | CSplit input obs => list_eqb String.eqb (split_manifests input) obs
-  | CSort unin files heads obs =>
+  | CSort unin pfiles heads obs =>
+      let files := build_files heads pfiles in
       match sort_manifests (head_table heads) (if unin then uninstall_order else install_order) files, obs with
       | SortErr, OSortErr => true
-      | SortOk hs gs, OSortOk ohs ogs => list_eqb hook_eqb hs ohs && list_eqb gobs_eqb (map gobs_of gs) ogs
+      | SortOk hs gs, OSortOk ohs ogs =>
+          list_eqb2 (hook_eqb (map fst heads)) hs ohs && list_eqb2 (gobs_eqb (map fst heads)) gs ogs
       | _, _ => false
       end
-  | CRender files heads obs =>
-      match render_resources (head_table heads) install_order files, obs with
-      | RenderErr, ORenderErr => true
-      | RenderOk hs txt, ORenderOk ohs otxt => list_eqb hook_eqb hs ohs && String.eqb txt otxt
-      | _, _ => false
+  | CRender pfiles heads obs =>
+      let files := build_files heads pfiles in
+      match obs with
+      | ORenderErr =>
+          match render_resources (head_table heads) install_order files with RenderErr => true | _ => false end
+      | ORenderRaw ohs otxt =>
+          match render_resources (head_table heads) install_order files with
+          | RenderOk hs txt => list_eqb2 (hook_eqb (map fst heads)) hs ohs && String.eqb txt otxt
+          | RenderErr => false
+          end
+      | ORenderOk ohs pieces =>
+          match render_resources (head_table heads) install_order files, pieces_text (map fst heads) pieces with
+          | RenderOk hs txt, Some otxt => list_eqb2 (hook_eqb (map fst heads)) hs ohs && String.eqb txt otxt
+          | _, _ => false
+          end
       end
   | CBarrier kinds failing evs nfail =>
       let fails := fun j => existsb (Nat.eqb j) failing in
